@@ -106,6 +106,8 @@ type FnExec struct {
 	alenSeen         map[*Term]bool
 	pendingFresh     []*Term
 	capTypes         map[string]CVal
+	arrOrigins       map[*Term]arrOrigin
+	rngDepth         int
 	curPC            *Term // path condition of the state being executed (for side queries)
 	sideCache        map[[2]int]bool
 	sideMemo         map[*Term]bool
